@@ -18,50 +18,63 @@ import (
 )
 
 // The race tier: cmd/c13race is this package's RaceMain built with `go build -race`. It drives
-// a fixed tree that holds every verifier kind directly under filters (no fifo.Group lock above
-// them) and under groups, with 8 goroutines of traffic racing queries and resets.
+// a fixed tree that holds verifiers directly under filters (no fifo.Group lock above them) and
+// under groups, with 8 goroutines of traffic racing queries and resets.
 //
-//	mode A: the tree is installed through martianhttp.Modifier, as cmd/proxy wires it. Its
-//	        RWMutex makes a reset exclusive with traffic; queries run concurrently with traffic.
-//	        ANY race report is a violation.
-//	mode B: the parse result (a filter) is handed to verify.ResetHandler directly. Nothing orders
-//	        `v.err = martian.NewMultiError()` in Reset*Verifications with `v.err.Add` / `v.err.Empty`
-//	        in traffic and queries: reports whose stacks contain a verifier's Reset*Verifications
-//	        are the known finding F13c-swap; any other report is a violation.
+//	mode A: every verifier kind except pingback; the tree is installed through martianhttp.Modifier,
+//	        as cmd/proxy wires it. Its RWMutex makes a reset exclusive with traffic; queries run
+//	        concurrently with traffic. ANY race report is a violation.
+//	mode B: the same tree, but the parse result (a filter) is handed to the handlers directly.
+//	        Nothing orders `v.err = martian.NewMultiError()` in Reset*Verifications with `v.err.Add` /
+//	        `v.err.Empty` in traffic and queries: reports with a verifier's Reset*Verifications as
+//	        one of the two accesses are the known finding F13c-swap; any other report is a violation.
+//	mode P / Q: pingback verifiers only, behind martianhttp.Modifier / wired directly. pingback keeps a
+//	        bare `err` field: reports whose two accesses are both pingback.(*Verifier) methods have
+//	        their own signature (repaired by repo-patches/C13-fix-pingback-lock.patch); others violate.
 
-func raceTree() *node {
+func raceTree(withPing, onlyPing bool) *node {
 	leaf := func(kind string, args ...string) *node { return &node{typ: "L", scope: "d", leaf: kind, args: args} }
 	all := func() []*node {
-		return []*node{leaf("status", "200"), leaf("header", "X-A", "1"), leaf("method", "GET"), leaf("url", "http", "", "/x", ""),
-			leaf("qs", "k", "v"), leaf("failure", "L1"), leaf("ping", "", "a.example", "", "")}
+		var l []*node
+		if !onlyPing {
+			l = []*node{leaf("status", "200"), leaf("header", "X-A", "1"), leaf("method", "GET"), leaf("url", "http", "", "/x", ""),
+				leaf("qs", "k", "v"), leaf("failure", "L1")}
+		}
+		if withPing {
+			l = append(l, leaf("ping", "", "a.example", "", ""), leaf("ping", "", "", "", ""))
+		}
+		return l
 	}
 	group := func(agg bool, kids ...*node) *node { return &node{typ: "G", scope: "d", agg: agg, kids: kids} }
 	filter := func(cond string, args []string, kids ...*node) *node {
 		return &node{typ: "F", scope: "d", cond: cond, args: args, kids: kids}
 	}
-	// verifiers directly under filters on both branches, and under groups
-	direct := filter("method", []string{"GET"},
-		filter("url", []string{"", "a.example", "", ""}, leaf("header", "X-B", "2"), leaf("status", "404")),
-		filter("header", []string{"X-B", "1"}, leaf("failure", "L2"), leaf("method", "POST")))
+	// verifiers directly under filters on both branches (no group lock above them), and under groups
+	var direct, direct2 *node
+	if onlyPing {
+		direct = filter("method", []string{"GET"}, leaf("ping", "http", "", "", ""), leaf("ping", "", "", "/x", ""))
+		direct2 = filter("method", []string{"PUT"}, leaf("ping", "", "b.example", "", ""), leaf("ping", "", "", "", "k=v"))
+	} else {
+		direct = filter("method", []string{"GET"},
+			filter("url", []string{"", "a.example", "", ""}, leaf("header", "X-B", "2"), leaf("status", "404")),
+			filter("header", []string{"X-B", "1"}, leaf("failure", "L2"), leaf("method", "POST")))
+		direct2 = filter("method", []string{"PUT"}, leaf("qs", "j", "1"), leaf("url", "", "b.example", "", ""))
+	}
 	return filter("header", []string{"X-A", "1"},
 		filter("url", []string{"http", "", "", ""}, group(false, all()...), direct),
-		filter("url", []string{"", "", "/x", ""}, direct2(leaf), group(true, all()...)))
-}
-
-func direct2(leaf func(string, ...string) *node) *node {
-	return &node{typ: "F", scope: "d", cond: "method", args: []string{"PUT"}, kids: []*node{leaf("qs", "j", "1"), leaf("url", "", "b.example", "", "")}}
+		filter("url", []string{"", "", "/x", ""}, direct2, group(true, all()...)))
 }
 
 // RaceMain is the body of cmd/c13race.
 func RaceMain() {
-	mode := flag.String("mode", "A", "A: through martianhttp.Modifier, B: wired directly")
+	mode := flag.String("mode", "A", "A/P: through martianhttp.Modifier, B/Q: wired directly; P/Q: pingback verifiers only")
 	dur := flag.Duration("dur", 400*time.Millisecond, "how long to run")
 	flag.Parse()
 	w := "m"
-	if *mode == "B" {
+	if *mode == "B" || *mode == "Q" {
 		w = "d"
 	}
-	im := install(w, raceTree())
+	im := install(w, raceTree(*mode == "P" || *mode == "Q", *mode == "P" || *mode == "Q"))
 	if im == nil {
 		fmt.Println("configuration rejected")
 		os.Exit(3)
@@ -150,9 +163,12 @@ func buildRace() {
 	}
 }
 
-var frameRe = regexp.MustCompile(`(?m)^  (github\.com/google/martian/v3[^\s(]*|verif/harness[^\s(]*)\(`)
+var accessRe = regexp.MustCompile(`(?m)^(?:Write|Read|Previous write|Previous read|Atomic write|Atomic read|Previous atomic write|Previous atomic read) at [^\n]*\n  ([^\s]+)\(\)`)
 
-// raceOp runs the race-instrumented driver and classifies its reports.
+var raceModes = map[string]string{"A": "tree behind martianhttp.Modifier", "B": "tree wired directly to the handlers",
+	"P": "pingback verifiers behind martianhttp.Modifier", "Q": "pingback verifiers wired directly to the handlers"}
+
+// raceOp runs the race-instrumented driver and classifies its reports by the two accessing functions.
 func raceOp(mode string) core.Result {
 	raceOnce.Do(buildRace)
 	if raceBuildE != "" {
@@ -161,7 +177,7 @@ func raceOp(mode string) core.Result {
 		return core.Result{Impl: "race skipped", SkipModel: true}
 	}
 	cmd := exec.Command(raceBin, "-mode", mode, "-dur", "400ms")
-	cmd.Env = append(os.Environ(), "GORACE=halt_on_error=0 history_size=2")
+	cmd.Env = append(os.Environ(), "GORACE=halt_on_error=0")
 	var out bytes.Buffer
 	cmd.Stdout, cmd.Stderr = &out, &out
 	done := make(chan error, 1)
@@ -185,38 +201,41 @@ func raceOp(mode string) core.Result {
 	}
 	reports := strings.Split(text, "WARNING: DATA RACE")[1:]
 	core.Stats["race:"+mode+":reports"] += len(reports)
-	swap, other := 0, ""
+	swap, ping, other := 0, 0, ""
 	for _, rep := range reports {
-		var frames []string
-		seen := map[string]bool{}
-		for _, m := range frameRe.FindAllStringSubmatch(rep, -1) {
-			f := strings.TrimPrefix(m[1], "github.com/google/martian/v3")
-			if !seen[f] && !strings.HasPrefix(f, "verif/harness") {
-				seen[f] = true
-				frames = append(frames, f)
+		var acc []string
+		for _, m := range accessRe.FindAllStringSubmatch(rep, -1) {
+			acc = append(acc, strings.TrimPrefix(m[1], "github.com/google/martian/v3"))
+		}
+		// the swap: a verifier's Reset*Verifications is on one of the two stacks (the access itself, or
+		// the initialisation of the fresh MultiError it allocates)
+		isSwap := strings.Contains(rep, "erifier).ResetRequestVerifications()") || strings.Contains(rep, "erifier).ResetResponseVerifications()")
+		allPing := len(acc) > 0
+		for _, f := range acc {
+			if !strings.HasPrefix(f, "/pingback.(*Verifier).") {
+				allPing = false
 			}
 		}
-		isSwap := false
-		for _, f := range frames {
-			if strings.Contains(f, "erifier).ResetRe") { // (*Verifier)/(*verifier).ResetRequest/ResponseVerifications
-				isSwap = true
-			}
-		}
-		if isSwap && mode == "B" {
+		switch {
+		case allPing && (mode == "P" || mode == "Q"):
+			ping++
+		case isSwap && !allPing && mode == "B":
 			swap++
-			continue
-		}
-		if other == "" {
-			sort.Strings(frames)
-			other = strings.Join(frames, " ")
+		case other == "":
+			sort.Strings(acc)
+			other = strings.Join(acc, " / ")
 		}
 	}
 	core.Stats["race:"+mode+":reset-swap-reports"] += swap
-	if other != "" {
+	core.Stats["race:"+mode+":pingback-reports"] += ping
+	switch {
+	case other != "":
 		return core.Result{Impl: "race " + mode, SkipModel: true, Sig: "c13:race",
-			Fail: fmt.Sprintf("data race (mode %s: %s) involving %s", mode, map[string]string{"A": "tree behind martianhttp.Modifier", "B": "tree wired directly"}[mode], other)}
-	}
-	if swap > 0 {
+			Fail: fmt.Sprintf("data race (mode %s: %s) between %s", mode, raceModes[mode], other)}
+	case ping > 0:
+		return core.Result{Impl: "race " + mode, SkipModel: true, Sig: "c13:race-pingback-err-unlocked",
+			Fail: fmt.Sprintf("%d data race report(s) (mode %s: %s): pingback.Verifier reads and writes its err field without a lock", ping, mode, raceModes[mode])}
+	case swap > 0:
 		return core.Result{Impl: "race " + mode, SkipModel: true, Sig: "c13:race-reset-swap-unlocked-root",
 			Fail: fmt.Sprintf("%d data race report(s): a verifier's Reset*Verifications replaces its *MultiError while traffic/queries read the field; the tree is wired to the handlers without a locking parent", swap)}
 	}
